@@ -285,10 +285,11 @@ def r4_delimiters(ctx):
                 if kind in ("Comment", "CData"):
                     plen = {"Comment": b"!--", "CData": b"![CDATA["}[kind]
                     slen = {"Comment": b"--", "CData": b"]]"}[kind]
-                    ok = pre == [plen] and rng is not None and rng[2] == "Range" and rng[3][0] == ("c", "usize", len(plen))
-                    hi = rng[3][1] if ok else None
-                    ok = ok and hi[0] == "bin" and hi[1] == "Sub" and call_is(hi[2], "len") and hi[3] == ("c", "usize", len(slen)) and (not suf or suf == [slen])
-                    ctx.ob("R4", "emit_bang:%s" % kind, ok and vs[k] == kind, "payload is buf[%d..len-%d] after testing the prefix %r (the scanner required the suffix %r): prefix %s range %s" % (len(plen), len(slen), plen, slen, pre, sym.show(rng) if rng else None), config=cfg)
+                    wr = [x for x in sym.subterms(r) if call_is(x, "BytesText::wrap", "BytesCData::wrap")]
+                    nf = slice_norm(wr[0][3][0]) if wr else None
+                    ok = nf is not None and nf[0][0] == "arg" and nf[0][2] == "buf" and nf[1] == len(plen) and nf[2] == len(slen)
+                    ok = ok and (set(pre) == {plen} or ("prefix", plen, 0) in nf[3]) and (not suf or set(suf) == {slen} or ("suffix", slen, 0) in nf[3])
+                    ctx.ob("R4", "emit_bang:%s" % kind, ok and vs[k] == kind, "payload is buf[%d..len-%d] after testing the prefix %r (the scanner required the suffix %r): prefix %s cuts %s" % (len(plen), len(slen), plen, slen, pre, None if nf is None else (nf[1], nf[2])), config=cfg)
                 elif kind == "DocType":
                     ok = rng is not None and rng[2] == "RangeFrom" and rng[3][0][0] == "bin" and rng[3][0][1] == "Add" and rng[3][0][2] == ("c", "usize", 8)
                     ctx.ob("R4", "emit_bang:DocType", ok and vs[k] == "DocType", "payload starts after `!DOCTYPE` (8) plus the following whitespace: %s" % (sym.show(rng) if rng else None), config=cfg)
@@ -306,10 +307,11 @@ def r4_delimiters(ctx):
                     continue
                 kind = describe_ret(r, 1)[0][1]
                 kinds.add(kind)
-                rng = [s[3][1] for s in sym.subterms(r) if call_is(s, "index") and s[3][1][0] == "agg" and s[3][1][2] == "Range"]
-                ok = bool(rng) and rng[0][3][0] == ("c", "usize", 1) and rng[0][3][1][0] == "bin" and rng[0][3][1][1] == "Sub" and rng[0][3][1][3] == ("c", "usize", 1)
-                lastq = any(e[0] == "switch" and e[2][0] == "bin" and e[2][1] == "Eq" and e[2][3] == ("c", "u8", 63) and e[3] != 0 for e in p)
-                ctx.ob("R4", "emit_question_mark:%s:cut" % kind, ok and lastq, "content is buf[1..len-1] and the last byte was tested to be '?'", config=cfg)
+                wr = [s for s in sym.subterms(r) if call_is(s, "BytesStart::wrap", "BytesPI::wrap")]
+                nf = slice_norm(wr[0][3][0]) if wr else None
+                ok = nf is not None and nf[0][0] == "arg" and nf[0][2] == "buf" and nf[1] == 1 and nf[2] == 1
+                lastq = any(e[0] == "switch" and e[2][0] == "bin" and e[2][1] == "Eq" and e[2][3] == ("c", "u8", 63) and e[3] != 0 for e in p) or (nf is not None and ("suffix", b"?", 0) in nf[3])
+                ctx.ob("R4", "emit_question_mark:%s:cut" % kind, ok and lastq, "content is buf[1..len-1] and the last byte was tested to be '?': %s" % (None if nf is None else str((sym.show(nf[0]), nf[1], nf[2], sorted(nf[3]))),), config=cfg)
                 xml = [c for c in calls(p) if name_is(c[2], "starts_with") and bytes_literal(c[3][1]) == b"xml"]
                 isx = decision_on(p, lambda t: call_is(t, "starts_with"))
                 if kind == "Decl":
